@@ -23,7 +23,12 @@ def design_c01(rep, tier):
 
 
 def design_c02(rep, tier):
+    from harness import constrain_replay
     _design(rep, tier)
+    rep.add_model(common.design_check("Constrain", "MC_Constrain.cfg", workers=8),
+                  role="design: substring surgery = whole-token surgery when no input molecule's text begins with a marker")
+    rep.add_model(common.neg_check("Constrain", "Neg_Constrain.cfg"), role="negative: marker-prefixed input molecules")
+    constrain_replay.run(rep, "C02", {"InputMoleculesKept"})
 
 
 def design_c03(rep, tier):
